@@ -123,4 +123,5 @@ def jobs(tier):
 
 
 def main(report, tier):
-    return summarize(report, runner.run_tasks(jobs(tier)), 'C04')
+    from . import mnode
+    return summarize(report, runner.run_tasks(jobs(tier) + mnode.jobs_for('C04', tier)), 'C04')
